@@ -40,10 +40,12 @@ QuickScenarios == {Q1, Q2, Q3, Q4, Q5, Q6, Q7, Q8, Q9, Q10, Q11, Q12}
 (* ---- thorough ---- *)
 SamplerDevs == {D(k, TRUE, iv, "none", k = "nodestats") : k \in {"ccr", "nodestats", "transform"}, iv \in {1, 3}}
 OtherDevs == {I("jvm"), I("ingest"), I("indexstats")}
+Slow == {d \in SamplerDevs : d.iv = 3}
+Pairs == (SamplerDevs \X OtherDevs) \cup (OtherDevs \X SamplerDevs) \cup (OtherDevs \X OtherDevs) \cup (Slow \X Slow)
 ThoroughScenarios ==
     QuickScenarios
-    \cup {S(<<a, b>>, 1, "off", cm, 1, p) : a \in SamplerDevs \cup OtherDevs, b \in SamplerDevs \cup OtherDevs, cm \in BOOLEAN, p \in {Bench, <<"bstop">>}}
-    \cup {S(<<a>>, 2, "off", TRUE, ne, Bench) : a \in SamplerDevs \cup {I("ingest"), D("recovery", TRUE, 2, "c2", FALSE)}, ne \in {0, 2}}
+    \cup {S(<<ab[1], ab[2]>>, 1, "off", cm, 1, p) : ab \in Pairs, cm \in BOOLEAN, p \in {Bench, <<"bstop">>}}
+    \cup {S(<<a>>, 2, "off", TRUE, ne, Bench) : a \in Slow \cup {I("ingest"), D("recovery", TRUE, 2, "c2", FALSE)}, ne \in {0, 2}}
 
 (* ---- self-tests of the named switches: small ---- *)
 SelfTestScenarios ==
@@ -51,7 +53,16 @@ SelfTestScenarios ==
       S(<<D("nodestats", TRUE, 2, "none", FALSE)>>, 1, "off", TRUE, 1, Bench),
       S(<<I("diskio")>>, 1, "off", TRUE, 1, <<"attach", "store">>) }
 
-RepairedScenarios == {Q1, Q3, Q6, Q9} \cup SelfTestScenarios
+RepairedScenarios ==
+    { S(<<I("ingest"), D("ccr", TRUE, 2, "none", FALSE), I("jvm")>>, 1, "off", FALSE, 1, Bench),
+      S(<<D("nodestats", TRUE, 2, "none", FALSE), I("indexstats")>>, 1, "off", TRUE, 1, Bench),
+      S(<<D("transform", TRUE, 2, "none", FALSE)>>, 1, "off", TRUE, 1, Bench),
+      S(<<I("ingest")>>, 2, "off", TRUE, 1, Bench),
+      S(<<I("diskio"), I("startup")>>, 1, "off", TRUE, 1, <<"attach", "store">>),
+      S(<<I("diskio"), I("startup")>>, 1, "off", TRUE, 1, <<"pre", "attach", "detachR", "store">>) }
+
+(* simulation without failing stats calls: long sampler runs *)
+OkOnly == \A i \in 1..Len(act'.a) : act'.a[i] >= 0
 
 V012 == {0, 1, 2}
 V02 == {0, 2}
